@@ -75,6 +75,10 @@ func (f *Frame) execCall(v ssa.Value, c *ssa.CallCommon, st *State) {
 			if callee.Origin() != nil {
 				name = canonName(callee.Origin())
 			}
+		} else if nt, isNamed := c.Value.Type().(*types.Named); isNamed && nt.Obj().Pkg() != nil && f.vc.db.Contracts[shortPkg(nt.Obj().Pkg().Path())+"."+nt.Obj().Name()+"$call"] != nil {
+			// call through a value of a named function type (e.g. sdk.Handler, sdk.AnteHandler):
+			// the contract "<pkg>.<Type>$call" specifies what any such function may do
+			name = shortPkg(nt.Obj().Pkg().Path()) + "." + nt.Obj().Name() + "$call"
 		} else if par, isPar := c.Value.(*ssa.Parameter); isPar && par.Parent() != nil {
 			// call through a function-valued PARAMETER: a contract named
 			// "<function>$<parameter>" specifies what the callback may do (its
@@ -600,7 +604,13 @@ func (f *Frame) execBuiltin(v ssa.Value, b *ssa.Builtin, c *ssa.CallCommon, st *
 		st.pc = "false"
 	case "print", "println":
 	case "recover":
-		unsupported("recover in %s", canonName(f.fn))
+		// Only non-panicking executions of the function are modelled (a panic ends the path):
+		// in those, recover() returns nil. Executions in which a deferred handler recovers from a
+		// panic and the function then returns normally are NOT covered - recorded as an assumption.
+		if v != nil {
+			f.defVal(v, "Iface_nil")
+		}
+		f.vc.assumed = append(f.vc.assumed, fmt.Sprintf("%s: recover(): executions that panic and are recovered by a deferred handler are not covered (only non-panicking executions are verified)", canonName(f.fn)))
 	case "min", "max":
 		x, y := f.val(c.Args[0]), f.val(c.Args[1])
 		op := "<="
